@@ -952,6 +952,11 @@ def register_all(M):
             return Ref(sl.items, sl.lo + i)
         if isinstance(base, Opaque) and base.tag == "json":
             return Ref([Opaque("json", ("index", base.payload, elems_of(i)))], 0)
+        if isinstance(base, SMap):
+            r = m_map_get(it, [args[0], args[1]], callee)
+            if r.variant != 1:
+                raise PanicPath("HashMap index: key not found")
+            return r.fields[0]
         raise Unsupported("Index on %r" % (base,))
 
     @reg("PartialEq::eq", "PartialEq::ne")
@@ -2101,6 +2106,22 @@ def register_all(M):
     @reg("Box::new")
     def m_box_new(it, args, callee):
         return Box(args[0])
+
+    @reg("Box::new_uninit")
+    def m_box_new_uninit(it, args, callee):
+        # `vec![a, b]` in this toolchain: an uninitialised boxed array written through the MaybeUninit / ManuallyDrop / MaybeDangling wrappers
+        return Box(Agg("adt:MaybeUninit", None, [UNIT, Agg("adt:ManuallyDrop", None, [Agg("adt:MaybeDangling", None, [None])])]))
+
+    @reg("box_assume_init_into_vec_unsafe")
+    def m_box_into_vec(it, args, callee):
+        b = args[0]
+        try:
+            arr = b.cell[0].fields[1].fields[0].fields[0]
+        except (AttributeError, IndexError):
+            raise Unsupported("box_assume_init_into_vec_unsafe on %r" % (b,))
+        if not isinstance(arr, Agg):
+            raise Unsupported("box_assume_init_into_vec_unsafe: array not written")
+        return SVec(list(arr.fields))
 
     @reg("Box::into_raw", "Box::leak")
     def m_box_into_raw(it, args, callee):
